@@ -12,6 +12,9 @@ class ScopeProgram:
         self.c = [r.randrange(1, 20) for _ in range(6)]
         # units: name -> (number of locals/params, may use field names?)
         self.units = {"A": (2, True), "B": (2, False), "C": (1, False), "D": (2, True), "E": (3, True), "M": (3, True), "F": (2, True)}
+        # array-typed locals: in the colliding rendering they carry the name of P's array field
+        self.arr_colliding = {"M": "d", "E": "d"}
+        self.arr_fresh = {"M": "m_arr_z", "E": "e_arr_z"}
         self.colliding = {}
         for u, (k, fields_ok) in self.units.items():
             pool = [p for p in POOL if fields_ok or p not in FIELDS]
@@ -24,7 +27,7 @@ class ScopeProgram:
         body = ["echo(early({M0}));", "echo(early({M1}) + {M0});", "{ SG<P> gq = new SG<P>(); echo(gq.get()); }", "echo(SN.get());", "{M2}.setn({M0} + 1);", "echo({M0}); echo({M1});", "echo({M2}.addt({M1}));", "echo(helper({M2}, {M0}));",
                 "echo({M0} + {M1});", "echo({M2}.viaThis({M1}));", "{M0} = {M0} + 1;", "echo({M2}.n); echo({M2}.t);",
                 "{ P q = new P({M1}, {M0}); echo(q.addt(1)); }", "{ P dq = new P({M1}, {M0}); destroy dq; echo({M0}); }",
-                "{M2} = new P({M0}, {M1}); echo({M2}.n);", "{ P rq = new P({M0}, 2); rq = new P(3, {M1}); echo(rq.t); }"]
+                "{M2} = new P({M0}, {M1}); echo({M2}.n);", "echo({M2}.at({M0})); echo({MA}[1]);", "echo({M2}.at(1) + {MA}[0]);", "{ P rq = new P({M0}, 2); rq = new P(3, {M1}); echo(rq.t); }"]
         r.shuffle(body)
         self.body = body[:r.randrange(4, len(body) + 1)] + ["echo({M0}); echo({M1}); echo({M2}.n); echo({M2}.t);"]
 
@@ -42,15 +45,21 @@ class ScopeProgram:
             "    public function setn(int {B0}) -> void { int {B1} = {B0} + 1; n = {B1}; }",
             "    public function addt(int {C0}) -> int { t = t + {C0}; return t + n; }",
             "    public function viaThis(int {D0}) -> int { int {D1} = {D0} * 3; this.n = this.n + {D1}; return this.n; }",
+            "    public int[] d = {%d, %d, %d};" % (c[0] + 30, c[1] + 40, c[2] + 50),
+            "    public function at(int {C0}) -> int { return d[{C0} % 3] + d[0]; }",
             "    public destructor() -> void { echo(n * 1000 + t); }",
             "}",
             "class SG<T> { public static int k = %d; public static int w = k * 2 + 1; public static int v = w + k; public constructor() -> SG<T> = default; public function get() -> int { return w * 100 + v; } }" % c[4],
             "class SN { public static int x = %d; public static int k = x + 5; public constructor() -> SN = default; public static function get() -> int { return k * 3 + x; } }" % c[5],
             "function early(int {F0}) -> int { for (int {F1} = 0; {F1} < 4; {F1} = {F1} + 1) { if ({F1} == 2) { return {F0} + {F1}; } } return 0; }",
-            "function helper(P {E0}, int {E1}) -> int { int {E2} = {E1} + 2; {E0}.setn({E2}); { SG<SN> gs = new SG<SN>(); {E2} = {E2} + gs.get() - gs.get(); } return {E0}.addt({E1}) + {E2}; }",
+            "function helper(P {E0}, int {E1}) -> int { int[] {EA} = {7, 8, 9}; int {E2} = {E1} + 2 + {EA}[1] - 8; echo({E0}.at({E1})); {E0}.setn({E2}); { SG<SN> gs = new SG<SN>(); {E2} = {E2} + gs.get() - gs.get(); } return {E0}.addt({E1}) + {E2}; }",
             "function main() -> void {",
-            "    int {M0} = %d; int {M1} = %d;" % (c[2], c[3]),
+            "    int {M0} = %d; int {M1} = %d; int[] {MA} = {1, 2, 3};" % (c[2], c[3]),
             "    P {M2} = new P({M0}, {M1});"] + ["    " + b for b in self.body] + ["}"])
+        coll = all(names.get(u) == self.colliding.get(u) for u in ("M", "E"))
+        for u, key in (("M", "MA"), ("E", "EA")):
+            use_coll = names.get(u) == self.colliding.get(u)
+            t = t.replace("{" + key + "}", self.arr_colliding[u] if use_coll else self.arr_fresh[u])
         for k, v in m.items():
             t = t.replace("{" + k + "}", v)
         return t
